@@ -4,8 +4,10 @@
 //! exit 1: violation (a line `VIOLATION property=<id> replay=<path>` is printed)
 //! exit 2: inconclusive (hang, watchdog, unusable input) -- never a violation
 
+#![allow(dead_code)]
 mod engine;
 mod matcher;
+mod c04;
 
 use std::path::Path;
 
@@ -14,6 +16,7 @@ use engine::*;
 fn property(id: &str) -> Option<Property> {
     Some(match id {
         "C01" | "C02" | "C03" => matcher::property(id),
+        "C04" => c04::property(),
         _ => return None,
     })
 }
